@@ -36,7 +36,7 @@ ASSUMPTIONS = [
 ]
 
 DIMS = [d for d in [[2, 2], [2, 3], [3, 3], [4, 2], [4, 4], [2, 2, 2], [2, 3, 2], [3, 3, 3], [2, 2, 4], [4, 4, 4], [2, 2, 2, 2], [3, 2, 2, 3],
-                    [4, 4, 4, 4], [3, 3, 3, 3]] if int(np.prod(d)) <= NMAX]
+                    [4, 4, 4, 4], [3, 3, 3, 3], [2, 1, 2], [1, 3], [3, 1, 2], [2, 2, 1]] if int(np.prod(d)) <= NMAX]
 
 
 def spectrum(rng, N):
